@@ -159,6 +159,47 @@ func c16Equals(c *Check, id string) {
 					c.Report(used, id, "EQUALS-BYTES", eq, cl.Pos(), "field "+f.Name(), "the byte-wise comparison of "+f.Name()+" decides the answer")
 				}
 			}
+			// string(a.f) == string(b.f) compares the same bytes
+			unconv := func(v ssa.Value) ssa.Value {
+				if cv, ok := v.(*ssa.Convert); ok {
+					if b, isB := cv.Type().Underlying().(*types.Basic); isB && b.Kind() == types.String {
+						return cv.X
+					}
+				}
+				return nil
+			}
+			for _, t := range Tests(eq) {
+				if t.Y == nil || (t.Op != token.EQL && t.Op != token.NEQ) {
+					continue
+				}
+				x, y := unconv(t.X), unconv(t.Y)
+				if x == nil || y == nil || !((isA(x) && isB(y)) || (isB(x) && isA(y))) {
+					continue
+				}
+				n++
+				ne := t.False
+				if t.Op == token.NEQ {
+					ne = t.True
+				}
+				ok, k := isFalseReturnOnly(ReachEdge(ne, nil), eq)
+				c.Report(ok && k > 0, id, "EQUALS-BYTES", eq, t.If.Pos(), "field "+f.Name(), "the byte-wise comparison of "+f.Name()+" decides the answer")
+			}
+			AllInstrs(eq, func(in ssa.Instruction) {
+				bo, ok := in.(*ssa.BinOp)
+				if !ok || bo.Op != token.EQL {
+					return
+				}
+				x, y := unconv(bo.X), unconv(bo.Y)
+				if x == nil || y == nil || !((isA(x) && isB(y)) || (isB(x) && isA(y))) {
+					return
+				}
+				for _, r := range Returns(eq) {
+					if AllOrigins(r.Results[0], func(v ssa.Value) bool { return v == ssa.Value(bo) }) {
+						n++
+						c.Report(true, id, "EQUALS-BYTES", eq, bo.Pos(), "field "+f.Name(), "the byte-wise comparison of "+f.Name()+" decides the answer")
+					}
+				}
+			})
 			c.Floor(id, "byte comparison of "+f.Name(), n, 1)
 		case *types.Map:
 			c16MapEquality(c, id, eq, f, isA, isB)
